@@ -9,6 +9,7 @@ import (
 	"io/fs"
 	"os"
 	"path/filepath"
+	"runtime"
 	"sort"
 	"strings"
 	"sync"
@@ -52,9 +53,6 @@ func reqOpts(rq wproto.Req) []gtree.Option {
 	}
 	if rq.Strict {
 		opts = append(opts, gtree.WithStrictVerify())
-	}
-	if rq.Massive {
-		opts = append(opts, gtree.WithMassive(context.Background()))
 	}
 	return opts
 }
@@ -114,6 +112,7 @@ func (f *failReader) Read(p []byte) (int, error) {
 
 // faultWriter accepts everything until call number at.
 type faultWriter struct {
+	yield   int
 	mu      sync.Mutex
 	buf     *bytes.Buffer
 	fault   *wproto.WFault
@@ -123,6 +122,7 @@ type faultWriter struct {
 }
 
 func (w *faultWriter) Write(p []byte) (int, error) {
+	yieldNow(w.yield)
 	w.mu.Lock()
 	defer w.mu.Unlock()
 	w.calls++
@@ -139,11 +139,79 @@ func (w *faultWriter) Write(p []byte) (int, error) {
 	return w.buf.Write(p)
 }
 
+// yieldReader delivers the document in small pieces, yielding in between; it can fail after n bytes
+// and cancel a context after k bytes.
+type yieldReader struct {
+	s        string
+	i        int
+	failAt   int // -1: never
+	cancelAt int // -1: never
+	cancel   func()
+	yield    int
+}
+
+func yieldNow(y int) {
+	switch {
+	case y == 1:
+		runtime.Gosched()
+	case y > 1:
+		time.Sleep(time.Duration(y) * time.Microsecond)
+	}
+}
+
+func (f *yieldReader) Read(p []byte) (int, error) {
+	yieldNow(f.yield)
+	limit := len(f.s)
+	if f.failAt >= 0 && f.failAt < limit {
+		limit = f.failAt
+	}
+	if f.cancelAt >= 0 && f.i >= f.cancelAt && f.cancel != nil {
+		f.cancel()
+		f.cancel = nil
+	}
+	if f.i >= limit {
+		if f.failAt >= 0 {
+			return 0, errReader
+		}
+		return 0, io.EOF
+	}
+	n := len(p)
+	if f.yield > 0 && n > 7 {
+		n = 7
+	}
+	if f.cancelAt > f.i && f.i+n > f.cancelAt {
+		n = f.cancelAt - f.i
+	}
+	k := copy(p[:n], f.s[f.i:limit])
+	f.i += k
+	return k, nil
+}
+
+var errCallback = errors.New("verif: injected callback failure")
+
 func handleReq(rq wproto.Req) (rp wproto.Rep) {
 	var buf bytes.Buffer
-	fw := &faultWriter{buf: &buf, fault: rq.WFault}
+	fw := &faultWriter{buf: &buf, fault: rq.WFault, yield: rq.Yield}
 	color.Output = fw
 	opts := reqOpts(rq)
+	if rq.Procs > 0 {
+		defer runtime.GOMAXPROCS(runtime.GOMAXPROCS(rq.Procs))
+	}
+	hc := newHookCtl(rq)
+	if rq.Record || rq.Delays != 0 || len(rq.Plan) > 0 {
+		hc.install()
+		defer hc.uninstall()
+	}
+	var cancelUser func()
+	if rq.Massive {
+		ctx, cancel := context.WithCancel(context.Background())
+		defer cancel()
+		cancelUser = func() { hc.log("env.cancel", ""); cancel() }
+		if rq.CancelAt != nil && *rq.CancelAt < 0 {
+			cancelUser()
+		}
+		opts = append(opts, gtree.WithMassive(ctx))
+	}
 	var jail string
 	if rq.Target != "" {
 		opts = append(opts, gtree.WithTargetDir(rq.Target))
@@ -158,12 +226,35 @@ func handleReq(rq wproto.Req) (rp wproto.Rep) {
 		opts = append(opts, gtree.WithTargetDir(filepath.Join(jail, "t")))
 	}
 	var mu sync.Mutex // massive mode calls back from several goroutines
+	visits := 0
+	var walk []string // callbacks may still arrive while a cancelled call is winding down: never touch rp from them
 	cb := func(wn *gtree.WalkerNode) error {
+		yieldNow(rq.Yield)
 		mu.Lock()
-		rp.Walk = append(rp.Walk, wn.Row())
-		mu.Unlock()
+		defer mu.Unlock()
+		walk = append(walk, wn.Row())
+		visits++
+		if rq.FailVisit > 0 && visits == rq.FailVisit {
+			return errCallback
+		}
+		for _, n := range rq.FailNames {
+			if n == wn.Name() {
+				return errCallback
+			}
+		}
 		return nil
 	}
+	var before map[string]string
+	if rq.Leaks {
+		before = real.GtreeGoroutines()
+	}
+	if rq.PreDoc != "" && jail != "" {
+		// the directory state the case needs: made with the simple mode before the call under test
+		if err := gtree.MkdirFromMarkdown(strings.NewReader(rq.PreDoc), gtree.WithTargetDir(filepath.Join(jail, "t"))); err != nil {
+			return wproto.Rep{Class: "err", Err: "harness: pre-mkdir: " + err.Error()}
+		}
+	}
+	start := time.Now()
 	o := real.Guard(func() error {
 		if rq.Route == "root" {
 			root := buildItems(rq.Items)
@@ -188,8 +279,17 @@ func handleReq(rq wproto.Req) (rp wproto.Rep) {
 			return fmt.Errorf("harness: unknown op %q", rq.Op)
 		}
 		var r io.Reader = strings.NewReader(rq.Doc)
-		if rq.ReadFail != nil {
+		if rq.ReadFail != nil && rq.Yield == 0 && rq.CancelAt == nil {
 			r = &failReader{s: rq.Doc, n: *rq.ReadFail}
+		} else if rq.ReadFail != nil || rq.Yield > 0 || (rq.CancelAt != nil && *rq.CancelAt >= 0) {
+			yr := &yieldReader{s: rq.Doc, failAt: -1, cancelAt: -1, cancel: cancelUser, yield: rq.Yield}
+			if rq.ReadFail != nil {
+				yr.failAt = *rq.ReadFail
+			}
+			if rq.CancelAt != nil {
+				yr.cancelAt = *rq.CancelAt
+			}
+			r = yr
 		}
 		switch {
 		case rq.Op == "output" && rq.Alias:
@@ -211,8 +311,15 @@ func handleReq(rq wproto.Req) (rp wproto.Rep) {
 		}
 		return fmt.Errorf("harness: unknown op %q", rq.Op)
 	})
+	mu.Lock()
+	rp.Walk = append([]string{}, walk...)
+	mu.Unlock()
+	fw.mu.Lock() // a spreader goroutine may still be inside a Write when the call has returned an error
 	rp.Class, rp.Out, rp.Err = o.Class(), buf.String(), o.ErrString()
+	fw.mu.Unlock()
+	rp.ElapsedUs = time.Since(start).Microseconds()
 	rp.IsReaderErr = o.Err != nil && errors.Is(o.Err, errReader)
+	rp.IsCtxErr = o.Err != nil && errors.Is(o.Err, context.Canceled)
 	fw.mu.Lock()
 	rp.WCalls, rp.WRefused, rp.WSizes = fw.calls, fw.refused, fw.sizes
 	fw.mu.Unlock()
@@ -223,8 +330,12 @@ func handleReq(rq wproto.Req) (rp wproto.Rep) {
 		rp.Entries = snapshot(jail)
 	}
 	if rq.Leaks && rp.Class != "hang" {
-		leaks := real.SettledLeaks(150 * time.Millisecond)
+		leaks := real.SettledLeaks(before, 150*time.Millisecond)
 		rp.Leaked, rp.LeakSigs = len(leaks), leaks
+		hc.log("settled", fmt.Sprint(len(leaks)))
 	}
+	hc.mu.Lock()
+	rp.Events, rp.Unforced, rp.PlanDone = hc.events, hc.unforced, hc.planIdx
+	hc.mu.Unlock()
 	return rp
 }
